@@ -112,10 +112,7 @@ def replay(v):
 def main(argv=None):
     a = runner.std_args(argv)
     if a.replay:
-        v = json.load(open(a.replay))
-        ok, detail = replay(v)
-        print(('VIOLATION property=%s replay=%s\n  ' % (PROP, a.replay) if ok else 'not reproduced: ') + detail)
-        return 1 if ok else 0
+        return runner.cli_replay(PROP, 'checks.C04', replay, a.replay)
     jobs = jobs_for(a.tier)
     if a.only:
         jobs = [j for j in jobs if a.only in j['id']]
